@@ -27,7 +27,10 @@ type codecRun struct {
 }
 
 // codecRunOne parses hist (ignoring outcomes) and then buf into a fresh receiver.
-func codecRunOne(e *codecEntry, c codecCtx, buf []byte, hist [][]byte, render bool) codecRun {
+// Rendering is a separate step (codecRender) that the oracle performs only after
+// the values have been compared: several String() methods call Encode(), and
+// P9208AlarmSign.encode() writes to the value it renders.
+func codecRunOne(e *codecEntry, c codecCtx, buf []byte, hist [][]byte) codecRun {
 	recv := e.mk(c)
 	for _, h := range hist {
 		hb := fw.Exact(h)
@@ -41,24 +44,28 @@ func codecRunOne(e *codecEntry, c codecCtx, buf []byte, hist [][]byte, render bo
 	switch {
 	case g.timeout:
 		out.cls = "timeout"
-		return out
 	case g.panicked:
 		out.cls, out.site, out.what = "panic", g.site, g.what
-		return out
-	}
-	out.cls = cls
-	if cls == "ok" && render && e.hasString {
-		g := codecGuard(recv.render)
-		switch {
-		case g.timeout:
-			out.strCls = "timeout"
-		case g.panicked:
-			out.strCls, out.strSite, out.strWhat = "panic", g.site, g.what
-		default:
-			out.strCls = "ok"
-		}
+	default:
+		out.cls = cls
 	}
 	return out
+}
+
+// codecRender calls every String() of a successfully parsed value.
+func codecRender(e *codecEntry, r *codecRun) {
+	if r.cls != "ok" || !e.hasString {
+		return
+	}
+	g := codecGuard(r.recv.render)
+	switch {
+	case g.timeout:
+		r.strCls = "timeout"
+	case g.panicked:
+		r.strCls, r.strSite, r.strWhat = "panic", g.site, g.what
+	default:
+		r.strCls = "ok"
+	}
 }
 
 func codecParseHist(s string) [][]byte {
@@ -92,7 +99,8 @@ func codecExecTot(c fw.Case) string {
 	if !ok {
 		return "bad-op"
 	}
-	r := codecRunOne(e, ctx, fw.Exact(fw.UnHex(c.Args[2])), nil, true)
+	r := codecRunOne(e, ctx, fw.Exact(fw.UnHex(c.Args[2])), nil)
+	codecRender(e, &r)
 	if r.cls != "ok" {
 		return r.cls
 	}
@@ -136,24 +144,20 @@ func codecOracleTot(c fw.Case) *fw.OracleFailure {
 	typ := strings.TrimSuffix(strings.TrimSuffix(e.sig, ".Parse"), ".Decode")
 	where := fmt.Sprintf("%s ctx=%s body=%s", e.name, ctx.s, trunc(fw.Hex(body), 160))
 
-	a := codecRunOne(e, ctx, fw.Exact(body), nil, true)             // fresh, exact capacity
-	b := codecRunOne(e, ctx, fw.Spare(body, 64, 0x00), nil, false)  // fresh, 64 spare bytes of 0x00
-	cc := codecRunOne(e, ctx, fw.Spare(body, 64, 0xFF), nil, false) // fresh, 64 spare bytes of 0xFF
+	a := codecRunOne(e, ctx, fw.Exact(body), nil)            // fresh, exact capacity
+	b := codecRunOne(e, ctx, fw.Spare(body, 64, 0x00), nil)  // fresh, 64 spare bytes of 0x00
+	cc := codecRunOne(e, ctx, fw.Spare(body, 64, 0xFF), nil) // fresh, 64 spare bytes of 0xFF
 	runs := []codecRun{a, b, cc}
 	names := []string{"exact", "spare00", "spareFF"}
 	var d codecRun
 	if len(hist) > 0 {
-		d = codecRunOne(e, ctx, fw.Exact(body), hist, true) // reused receiver
+		d = codecRunOne(e, ctx, fw.Exact(body), hist) // reused receiver
 		runs = append(runs, d)
 		names = append(names, "reused")
 	}
 	for i, r := range runs {
-		if r.cls == "timeout" || r.strCls == "timeout" {
-			fn := e.sig
-			if r.strCls == "timeout" {
-				fn = typ + ".String"
-			}
-			return &fw.OracleFailure{Sig: fn + "/timeout", Msg: fmt.Sprintf("no answer within %v (%s buffer) %s %s", codecWatchdog, names[i], r.what, where)}
+		if r.cls == "timeout" {
+			return &fw.OracleFailure{Sig: e.sig + "/timeout", Msg: fmt.Sprintf("no answer within %v (%s buffer) %s %s", codecWatchdog, names[i], r.what, where)}
 		}
 	}
 	// (a) (b) (c): the outcome may depend on the bytes of the slice only
@@ -177,9 +181,8 @@ func codecOracleTot(c fw.Case) *fw.OracleFailure {
 	if a.cls == "panic" {
 		return &fw.OracleFailure{Sig: codecSigSite(e.sig, "panic", a.site), Msg: fmt.Sprintf("panic %q in %s; %s", a.what, a.site, where)}
 	}
-	if a.strCls == "panic" {
-		return &fw.OracleFailure{Sig: codecSigSite(typ+".String", "panic", a.strSite), Msg: fmt.Sprintf("String() of the parsed value panics: %q in %s; %s", a.strWhat, a.strSite, where)}
-	}
+	// (d): a receiver that parsed other bodies before behaves like a fresh one
+	// (compared before anything is rendered: String() may write to the value)
 	if len(hist) > 0 {
 		hs := trunc(c.Args[3], 160)
 		if d.cls != a.cls {
@@ -193,9 +196,21 @@ func codecOracleTot(c fw.Case) *fw.OracleFailure {
 			if df := codecDiffVals(a.recv.vals(), d.recv.vals()); df != "" {
 				return &fw.OracleFailure{Sig: e.sig + "/history", Msg: fmt.Sprintf("value keeps state of an earlier parse: fresh vs reused receiver (history [%s]) differ at %s; %s", hs, df, where)}
 			}
-			if d.strCls == "panic" {
-				return &fw.OracleFailure{Sig: codecSigSite(typ+".String", "history/panic", d.strSite), Msg: fmt.Sprintf("String() panics only on the reused receiver (history [%s]): %q; %s", hs, d.strWhat, where)}
-			}
+		}
+	}
+	// rendering the parsed value is total
+	codecRender(e, &a)
+	if a.strCls == "timeout" {
+		return &fw.OracleFailure{Sig: typ + ".String/timeout", Msg: fmt.Sprintf("String() gives no answer within %v; %s", codecWatchdog, where)}
+	}
+	if a.strCls == "panic" {
+		return &fw.OracleFailure{Sig: codecSigSite(typ+".String", "panic", a.strSite), Msg: fmt.Sprintf("String() of the parsed value panics: %q in %s; %s", a.strWhat, a.strSite, where)}
+	}
+	if len(hist) > 0 {
+		codecRender(e, &d)
+		if d.strCls == "panic" || d.strCls == "timeout" {
+			return &fw.OracleFailure{Sig: codecSigSite(typ+".String", "history/"+d.strCls, d.strSite),
+				Msg: fmt.Sprintf("String() fails only on the reused receiver (history [%s]): %q; %s", trunc(c.Args[3], 160), d.strWhat, where)}
 		}
 	}
 	return nil
@@ -257,7 +272,7 @@ func (g *codecTotGen) out(body []byte, histPct int) {
 }
 
 // mutate derives the corrupted variants of one valid (raw form) body.
-func (g *codecTotGen) mutate(raw []byte, other []byte, full bool) {
+func (g *codecTotGen) mutate(raw []byte, other []byte, full, deep bool) {
 	r := g.r
 	// the valid body itself: fresh, and twice on a reused receiver
 	g.out(g.final(raw), 0)
@@ -277,6 +292,28 @@ func (g *codecTotGen) mutate(raw []byte, other []byte, full bool) {
 				m := append([]byte{}, raw...)
 				m[off] = v
 				g.out(g.final(m), 25)
+			}
+		}
+		// a length field that points exactly at (or just short of / past) the end of the
+		// body: byte := number of bytes that follow it, minus 0, 4, 5, 6 (the fixed
+		// parts that follow a name or a list in the layouts at hand)
+		if deep {
+			for off := 0; off < len(raw) && off < 160; off++ {
+				rem := len(raw) - off - 1
+				seen := map[byte]bool{raw[off]: true}
+				for _, k := range []int{0, 4, 5, 6} {
+					if v := rem - k; v >= 0 && v <= 255 && !seen[byte(v)] {
+						seen[byte(v)] = true
+						m := append([]byte{}, raw...)
+						m[off] = byte(v)
+						g.out(g.final(m), 10)
+					}
+				}
+				if off >= 40 && !seen[0xff] {
+					m := append([]byte{}, raw...)
+					m[off] = 0xff
+					g.out(g.final(m), 10)
+				}
 			}
 		}
 	} else {
@@ -373,10 +410,13 @@ func codecGenC03(r *fw.Rng, tier string, emit func(fw.Case)) {
 		for ci, cs := range e.ctxs {
 			ctx, _ := codecParseCtx(cs)
 			g := &codecTotGen{r: r.Fork(), emit: emit, e: e, ctx: ctx}
-			full := ci < e.lightFrom || tier == "thorough"
+			full := e.fullCtx(ci)
 			nValid := 2 * mul
 			if !full {
-				nValid = 1
+				nValid = mul
+			}
+			if e.weight > 0 {
+				nValid *= e.weight
 			}
 			// seed the history pool
 			for i := 0; i < 4; i++ {
@@ -387,12 +427,12 @@ func codecGenC03(r *fw.Rng, tier string, emit func(fw.Case)) {
 			for i := 0; i < nValid; i++ {
 				raw := codecValidBody(e, g.r, ctx)
 				other := codecValidBody(e, g.r, ctx)
-				g.mutate(raw, other, full)
+				g.mutate(raw, other, full, full && i%2 == 0)
 			}
 			if full {
-				g.random(30*mul, 3*mul)
+				g.random(20*mul, 2*mul)
 			} else {
-				g.random(8, 1)
+				g.random(8*mul, mul)
 			}
 		}
 	}
